@@ -545,7 +545,24 @@ fn check_mutant(rep: &mut Report, cx: &LayoutCtx, fseq: u64, mu: &Mutn) {
 
 /// truncate_before(T) on a freshly built world. `torn`: cut a file at a length first.
 fn trunc_case(rep: &mut Report, spec: &[Session], t: u64, open: bool, torn: Option<(u64, usize)>, class: (usize, usize, usize, bool)) {
+    trunc_case_f(rep, spec, t, open, torn, class, None)
+}
+
+/// `foreign`: a file that is not a WAL file lies in the directory (lock file, editor / backup copy, temp file): it must not
+/// change which file counts as the active one nor what is deleted.
+fn trunc_case_f(rep: &mut Report, spec: &[Session], t: u64, open: bool, torn: Option<(u64, usize)>, class: (usize, usize, usize, bool), foreign: Option<&str>) {
     let Ok(mut w) = build(spec) else { return };
+    if let Some(fname) = foreign {
+        let newest = w.store.list().unwrap_or_default().into_iter().filter(|n| n.starts_with("wal-")).max();
+        let content = if fname.ends_with(".bak") { newest.as_ref().and_then(|n| w.store.get_file_data(n)).unwrap_or_default() } else { b"pid 4711\n".to_vec() };
+        let fname = if fname.ends_with(".bak") { format!("{}.bak", newest.clone().unwrap_or_else(|| "wal-00000001.wal".into())) } else { fname.to_string() };
+        if let Ok(mut wr) = w.store.create(&fname) {
+            use redis_sim::streaming::wal_store::WalFileWriter as _;
+            let _ = wr.append(&content);
+            let _ = wr.sync();
+        }
+        rep.count("trunc:with-foreign-file");
+    }
     if let Some((seq, len)) = torn {
         w.store.truncate_file(&wal_name(seq), len);
     }
@@ -555,22 +572,36 @@ fn trunc_case(rep: &mut Report, spec: &[Session], t: u64, open: bool, torn: Opti
         _ => WalRotator::new(w.store.clone(), 1 << 20).expect("rotator"),
     };
     rep.evaluations += 1;
-    let wit = json!({"case": "truncate", "spec": spec_json(spec), "T": t, "open": open, "torn": torn.map(|x| json!([x.0, x.1]))});
+    let wit = json!({"case": "truncate", "spec": spec_json(spec), "T": t, "open": open, "torn": torn.map(|x| json!([x.0, x.1])), "foreign": foreign});
     let read = |name: &str| -> Option<Vec<Ent>> {
         let r = WalReader::open(w.store.open_read(name).ok()?).ok()?;
         Some(r.entries().into_iter().map(|e| (e.timestamp, e.data)).collect())
     };
-    let names = w.store.list().unwrap_or_default();
+    // WAL files are exactly the names wal-<hex>.wal; anything else in the directory is none of the WAL's business
+    let is_wal = |n: &str| n.strip_prefix("wal-").and_then(|x| x.strip_suffix(".wal")).map_or(false, |h| u64::from_str_radix(h, 16).is_ok());
+    let n_foreign_before = w.store.list().unwrap_or_default().iter().filter(|n| !is_wal(n)).count();
+    let names: Vec<String> = w.store.list().unwrap_or_default().into_iter().filter(|n| is_wal(n)).collect();
     let before: BTreeMap<String, Option<Vec<Ent>>> = names.iter().map(|n| (n.clone(), read(n))).collect();
     let active_img = active.as_ref().and_then(|a| w.store.get_file_data(a));
     let res = guard(|| rot.truncate_before(t).map_err(|e| e.to_string()));
-    let oc = if active.is_some() { "open-writer" } else { "no-writer" };
+    let oc = match (active.is_some(), foreign.is_some()) {
+        (true, false) => "open-writer",
+        (false, false) => "no-writer",
+        (true, true) => "open-writer,foreign-file-in-dir",
+        (false, true) => "no-writer,foreign-file-in-dir",
+    };
     let n_del = match res {
         Err(p) => return rep.violation(format!("C10|truncate_before|panic:{}|{}", panic_class(&p), oc), p, wit),
         Ok(Err(e)) => return rep.violation(format!("C10|truncate_before|error|{}", oc), e, wit),
         Ok(Ok(n)) => n,
     };
-    let after: BTreeSet<String> = w.store.list().unwrap_or_default().into_iter().collect();
+    let after_all: BTreeSet<String> = w.store.list().unwrap_or_default().into_iter().collect();
+    // a readable copy with a foreign name may be swept along (it is not part of the WAL; not judged, but counted)
+    let foreign_deleted = n_foreign_before - after_all.iter().filter(|n| !is_wal(n)).count().min(n_foreign_before);
+    if foreign_deleted > 0 {
+        rep.count("trunc:foreign-file-deleted");
+    }
+    let after: BTreeSet<String> = after_all.into_iter().filter(|n| is_wal(n)).collect();
     let stamps: Vec<u64> = before.values().flatten().flatten().map(|e| e.0).collect();
     let rel = if stamps.iter().all(|&s| s > t) { "T<all" } else if stamps.iter().all(|&s| s <= t) { "T>=all" } else { "T-inside" };
     rep.distinct(&("truncate", class, oc, rel, torn.is_some(), stamps.contains(&t)));
@@ -605,7 +636,7 @@ fn trunc_case(rep: &mut Report, spec: &[Session], t: u64, open: bool, torn: Opti
             });
         }
     }
-    if n_del != deleted || after.iter().any(|n| !before.contains_key(n)) {
+    if n_del != deleted + foreign_deleted || after.iter().any(|n| !before.contains_key(n)) {
         rep.violation(format!("C10|truncate_before|deleted-count-mismatch|{}", oc), format!("returned {} but {} files disappeared", n_del, deleted), wit.clone());
     }
     // whatever survives must still be recoverable, unchanged and in order
@@ -664,6 +695,12 @@ fn run_layout(rep: &mut Report, spec: &[Session], pattern: usize, small: bool, d
         for open in [true, false] {
             let torn_too = small || rng.gen_ratio(1, 4);
             for tn in [None, torn].into_iter().take(if torn_too { 2 } else { 1 }) {
+                if tn.is_none() && (small || rng.gen_ratio(1, 3)) {
+                    let fname = ["wal.lock", "copy.bak", "zz-editor.tmp", "wal-ffffffff.wal~"][rng.gen_range(0..4)];
+                    if let Err(pn) = guard(|| trunc_case_f(rep, spec, t, open, None, class, Some(fname))) {
+                        rep.violation(format!("C10|panic|truncate_before|foreign-file|{}", panic_class(&pn)), pn, json!({"case": "truncate", "spec": spec_json(spec), "T": t, "open": open, "foreign": fname}));
+                    }
+                }
                 if let Err(pn) = guard(|| trunc_case(rep, spec, t, open, tn, class)) {
                     rep.violation(
                         format!("C10|panic|truncate_before|{}|{}", if tn.is_some() { "torn-file" } else { "intact-files" }, panic_class(&pn)),
@@ -724,7 +761,8 @@ pub fn wal_leg(args: &Args) {
             "giant" => giant_case(&mut rep, w["size"].as_u64().unwrap_or(1 << 20) as usize),
             "truncate" => {
                 let torn = w["torn"].as_array().map(|a| (a[0].as_u64().unwrap_or(0), a[1].as_u64().unwrap_or(0) as usize));
-                trunc_case(&mut rep, &spec, w["T"].as_u64().unwrap_or(0), w["open"].as_bool().unwrap_or(false), torn, (0, 0, 0, true));
+                let foreign = w["foreign"].as_str().map(|s| s.to_string());
+                trunc_case_f(&mut rep, &spec, w["T"].as_u64().unwrap_or(0), w["open"].as_bool().unwrap_or(false), torn, (0, 0, 0, true), foreign.as_deref());
             }
             "mutant" => {
                 let world = build(&spec).expect("replay layout builds");
